@@ -147,6 +147,8 @@ class Decl:
         out.append("#[derive(%s)]" % derives)
         for a in attr_lines:
             out.append(a)
+        if self.sorted_attr:
+            out.append("#[enum_tools(sorted(%s))]" % self.sorted_attr)
         out.append("#[repr(%s)]" % self.repr)
         out.append("pub enum E {")
         for v in self.variants:
@@ -359,7 +361,9 @@ def k5(thorough):
     out.append(mk("k5_i8_150g", "i8", range(-100, 50), "K5", order="sorted", implicit="max",
                   note="150 gapless variants on i8: table index exceeds i8::MAX (sign extension of index casts)"))
     out.append(mk("k5_u8_256", "u8", range(0, 256), "K5", order="sorted", implicit="max",
-                  tier="t", note="all 256 values of u8"))
+                  note="all 256 values of u8: MIN and MAX are the type limits, the count does not fit the repr"))
+    out.append(mk("k5_i8_256", "i8", range(-128, 128), "K5", order="sorted", implicit="max",
+                  note="all 256 values of i8"))
     out.append(mk("k5_u8_250h", "u8", list(range(0, 200)) + list(range(205, 255)), "K5",
                   order="sorted", implicit="max", tier="t", note="250 variants u8, 2 runs"))
     if thorough:
@@ -367,6 +371,20 @@ def k5(thorough):
                 + list(range(5000, 5200)) + list(range(32767 - 199, 32768)))
         out.append(mk("k5_i16_1000", "i16", vals, "K5", order="runs_reversed", implicit="max",
                       tier="t", note="1000 variants, 4 runs"))
+    return out
+
+
+def ks():
+    """declarations that carry the compile-time `sorted` feature (sorted by name and value)"""
+    out = []
+    ids = {1: "Aa", 2: "Bb", 3: "Cc", 4: "Dd"}
+    out.append(mk("ks_g", "u8", [1, 2, 3, 4], "KS", order="sorted", implicit="max", idents=ids,
+                  renames={4: "Zz"}, sorted_attr="name, value", note="gapless, #[enum_tools(sorted(name, value))]"))
+    idh = {-5: "Alpha", -4: "Beta", 0: "Gamma", 7: "MiXed", 8: "Omega"}
+    out.append(mk("ks_h", "i16", [-5, -4, 0, 7, 8], "KS", order="sorted", implicit="alt", idents=idh,
+                  renames={7: "NAME with Caps"}, sorted_attr="name, value", note="holes, upper-case names, sorted(name, value)"))
+    out.append(mk("ks_n", "i8", [-1, 3, 9], "KS", order=[3, -1, 9], implicit="none", idents={3: "A", -1: "B", 9: "C"},
+                  sorted_attr="name", note="sorted(name) only, values not ascending"))
     return out
 
 
